@@ -73,9 +73,11 @@ META = {
                   'up-to-date next run" is OBSERVED on the real code by the third run (no M2 status model exists yet) '
                   '-- monitor C05_reexecuted is a Python predicate; the other four monitors are Lean predicates '
                   '(driver) cross-checked in Python, all four proved sound on model traces: no_dependent_runs, '
-                  'not_recorded, serial_stops on the trace of every reachable state; continue_complete '
-                  '(C05_monitor_continue_complete_serial/_parallel) on the trace of every run that ended normally '
-                  '(rpc = halted, no internal error), for every bound nTasks above all task names (namesBelow) -- '
+                  'not_recorded, serial_stops and continue_complete '
+                  '(C05_monitor_continue_complete_serial/_parallel/_exit) on the trace of every reachable state '
+                  '(continue_complete: for every bound nTasks above all task names -- namesBelow -- and every exit '
+                  'code that is <= 2 only without internal error; its guard is false before the end of the run: '
+                  'C05_complete_means_halted) -- '
                   'including that the closure the monitor computes from the trace, which is larger than the '
                   'model closure RunCl (setup-tasks of tasks reported unmet/ignored in the second select_task '
                   'pass), is fully processed, and that its nTasks-round fixed-point iterations are complete.',
